@@ -19,28 +19,29 @@ import (
 func init() { register("E7-misc", runE7) }
 
 type E7Spec struct {
-	Units      []UnitSpec      `json:"units"`
-	Stale      []StaleSpec     `json:"stale_coordinates"`
-	Frames     []FrameSpec     `json:"frames"`
-	Anchoring  []AnchorSpec    `json:"anchoring"`
-	TokenTable []TokenTblSpec  `json:"token_tables"`
-	ConstArgs  []ConstArgSpec  `json:"const_args"`
-	Aliasing   []FuncRuleSpec  `json:"aliasing"`
-	DotQuoting []FuncRuleSpec  `json:"dot_quoting"`
-	Dedupe     []FuncRuleSpec  `json:"dedupe_keys"`
-	DeleteIter []FuncRuleSpec  `json:"delete_while_iterating"`
-	JSON       []JSONSpec      `json:"json_closure"`
-	NoExit     []NoExitSpec    `json:"no_exit"`
+	Units       []UnitSpec     `json:"units"`
+	Stale       []StaleSpec    `json:"stale_coordinates"`
+	Frames      []FrameSpec    `json:"frames"`
+	Anchoring   []AnchorSpec   `json:"anchoring"`
+	TokenTable  []TokenTblSpec `json:"token_tables"`
+	ConstArgs   []ConstArgSpec `json:"const_args"`
+	Aliasing    []FuncRuleSpec `json:"aliasing"`
+	DotQuoting  []FuncRuleSpec `json:"dot_quoting"`
+	Dedupe      []FuncRuleSpec `json:"dedupe_keys"`
+	DeleteIter  []FuncRuleSpec `json:"delete_while_iterating"`
+	LoopCarried []FuncRuleSpec `json:"loop_carried_record"`
+	JSON        []JSONSpec     `json:"json_closure"`
+	NoExit      []NoExitSpec   `json:"no_exit"`
 }
 
 type FuncRuleSpec struct {
 	Props  []string `json:"props"`
-	Funcs  []string `json:"funcs"`  // function keys; "pkg:<rel>" = every function of the package
+	Funcs  []string `json:"funcs"` // function keys; "pkg:<rel>" = every function of the package
 	What   string   `json:"what"`
 	Escape []string `json:"escape"` // dot_quoting: accepted escaping helpers (function keys)
 }
 
-func expandFuncs(p *Program, c *Collector, list []string) []*ssa.Function {
+func expandFuncs(p *Program, c *Collector, list []string, props ...string) []*ssa.Function {
 	var out []*ssa.Function
 	for _, k := range list {
 		if strings.HasPrefix(k, "pkg:") {
@@ -57,13 +58,13 @@ func expandFuncs(p *Program, c *Collector, list []string) []*ssa.Function {
 				}
 			}
 			if n == 0 {
-				c.Fatal("E7: package %s has no functions", rel)
+				c.Anchor(props, "E7: package %s has no functions", rel)
 			}
 			continue
 		}
 		fn := p.Func(k)
 		if fn == nil {
-			c.Fatal("E7: %s does not resolve", k)
+			c.Anchor(props, "E7: %s does not resolve", k)
 			continue
 		}
 		out = append(out, fn)
@@ -111,6 +112,9 @@ func runE7(p *Program, sp *Spec, c *Collector) {
 	}
 	for _, d := range t.Dedupe {
 		runDedupe(p, c, d)
+	}
+	for _, d := range t.LoopCarried {
+		runLoopCarried(p, c, d)
 	}
 	for _, d := range t.DeleteIter {
 		runDeleteIter(p, c, d)
@@ -209,7 +213,7 @@ func runUnits(p *Program, c *Collector, u UnitSpec) {
 	for _, sk := range u.Sinks {
 		fn := p.Func(sk)
 		if fn == nil {
-			c.Fatal("E7: units sink %s does not resolve", sk)
+			c.Anchor(u.Props, "E7: units sink %s does not resolve", sk)
 			continue
 		}
 		n := 0
@@ -277,7 +281,7 @@ type StaleSpec struct {
 func runStale(p *Program, c *Collector, s StaleSpec) {
 	ed, dr := p.Func(s.Editor), p.Func(s.Driver)
 	if ed == nil || dr == nil {
-		c.Fatal("E7: stale coordinates: %s / %s does not resolve", s.Editor, s.Driver)
+		c.Anchor(s.Props, "E7: stale coordinates: %s / %s does not resolve", s.Editor, s.Driver)
 		return
 	}
 	key := "stale:" + s.Driver + " -> " + shortFn(s.Editor)
@@ -369,7 +373,7 @@ type FrameSpec struct {
 func runFrame(p *Program, c *Collector, f FrameSpec) {
 	fn := p.Func(f.Func)
 	if fn == nil {
-		c.Fatal("E7: frame: %s does not resolve", f.Func)
+		c.Anchor(f.Props, "E7: frame: %s does not resolve", f.Func)
 		return
 	}
 	sf := newSymFn(p, fn, 0)
@@ -432,7 +436,7 @@ type AnchorSpec struct {
 func runAnchoring(p *Program, c *Collector, a AnchorSpec) {
 	fn := p.Func(a.Func)
 	if fn == nil {
-		c.Fatal("E7: anchoring: %s does not resolve", a.Func)
+		c.Anchor(a.Props, "E7: anchoring: %s does not resolve", a.Func)
 		return
 	}
 	an := &shapeAn{p: p}
@@ -453,7 +457,7 @@ func runAnchoring(p *Program, c *Collector, a AnchorSpec) {
 		key := "anchor:" + rk
 		g := p.Global(rk)
 		if g == nil {
-			c.Fatal("E7: anchoring: %s does not resolve", rk)
+			c.Anchor(a.Props, "E7: anchoring: %s does not resolve", rk)
 			continue
 		}
 		if !used[rk] {
@@ -501,7 +505,7 @@ type TokenTblSpec struct {
 func runTokenTable(p *Program, c *Collector, t TokenTblSpec) {
 	fn := p.Func(t.Func)
 	if fn == nil {
-		c.Fatal("E7: token table: %s does not resolve", t.Func)
+		c.Anchor(t.Props, "E7: token table: %s does not resolve", t.Func)
 		return
 	}
 	var wantVals []int64
@@ -509,12 +513,12 @@ func runTokenTable(p *Program, c *Collector, t TokenTblSpec) {
 		i := strings.LastIndex(ck, ".")
 		pk := p.ByPath[joinMod(ck[:i])]
 		if pk == nil {
-			c.Fatal("E7: token table: package of %s does not resolve", ck)
+			c.Anchor(t.Props, "E7: token table: package of %s does not resolve", ck)
 			return
 		}
 		obj, _ := pk.Types.Scope().Lookup(ck[i+1:]).(*types.Const)
 		if obj == nil {
-			c.Fatal("E7: token table: constant %s does not resolve", ck)
+			c.Anchor(t.Props, "E7: token table: constant %s does not resolve", ck)
 			return
 		}
 		v, _ := constant.Int64Val(obj.Val())
@@ -571,7 +575,7 @@ type ConstArgSpec struct {
 func runConstArgs(p *Program, c *Collector, ca ConstArgSpec) {
 	fn := p.Func(ca.Func)
 	if fn == nil {
-		c.Fatal("E7: const args: %s does not resolve", ca.Func)
+		c.Anchor(ca.Props, "E7: const args: %s does not resolve", ca.Func)
 		return
 	}
 	sf := newSymFn(p, fn, 0)
@@ -622,7 +626,7 @@ func runConstArgs(p *Program, c *Collector, ca ConstArgSpec) {
 
 func runAliasing(p *Program, c *Collector, a FuncRuleSpec) {
 	n := 0
-	for _, fn := range expandFuncs(p, c, a.Funcs) {
+	for _, fn := range expandFuncs(p, c, a.Funcs, a.Props...) {
 		for _, b := range fn.Blocks {
 			for _, in := range b.Instrs {
 				var stored ssa.Value
@@ -646,6 +650,13 @@ func runAliasing(p *Program, c *Collector, a FuncRuleSpec) {
 				cell := addressedCell(stored)
 				if cell == nil {
 					continue
+				}
+				if _, isFree := cell.(*ssa.FreeVar); !isFree {
+					reg := loopRegion(fn, b)
+					al, isAl := cell.(*ssa.Alloc)
+					if reg == nil || (isAl && reg[al.Block()]) {
+						continue // stored once per allocation
+					}
 				}
 				// is the cell assigned as a whole somewhere that can run again after this store?
 				n++
@@ -691,11 +702,26 @@ func cellName(v ssa.Value) string {
 	return v.Name()
 }
 
-// rewrittenLater: a whole-variable store to the cell in fn (closure body runs once per node) or, for an Alloc, in a loop.
+// rewrittenLater: a whole-variable store to the cell in fn (closure body runs once per node) or, for an Alloc made
+// before a loop, a (whole or field) store inside the loop.
 func rewrittenLater(cell ssa.Value, fn *ssa.Function) ssa.Instruction {
 	refs := cell.Referrers()
 	if refs == nil {
 		return nil
+	}
+	if al, ok := cell.(*ssa.Alloc); ok {
+		for _, r := range *refs {
+			if fa, ok := r.(*ssa.FieldAddr); ok {
+				for _, r2 := range *fa.Referrers() {
+					if st, ok := r2.(*ssa.Store); ok && st.Addr == ssa.Value(fa) {
+						// a store inside a loop that does not contain the allocation
+						if reg := loopRegion(fn, st.Block()); reg != nil && !reg[al.Block()] {
+							return st
+						}
+					}
+				}
+			}
+		}
 	}
 	for _, r := range *refs {
 		st, ok := r.(*ssa.Store)
@@ -705,8 +731,8 @@ func rewrittenLater(cell ssa.Value, fn *ssa.Function) ssa.Instruction {
 		if _, isFree := cell.(*ssa.FreeVar); isFree {
 			return st // the closure is invoked repeatedly by its caller (ast.Inspect, Walk …)
 		}
-		if loopRegion(fn, st.Block()) != nil {
-			if al, ok := cell.(*ssa.Alloc); ok && loopRegion(fn, al.Block()) == nil {
+		if reg := loopRegion(fn, st.Block()); reg != nil {
+			if al, ok := cell.(*ssa.Alloc); ok && !reg[al.Block()] {
 				return st
 			}
 		}
@@ -718,7 +744,7 @@ func rewrittenLater(cell ssa.Value, fn *ssa.Function) ssa.Instruction {
 // DOT quoting
 
 func runDotQuoting(p *Program, c *Collector, d FuncRuleSpec) {
-	for _, fn := range expandFuncs(p, c, d.Funcs) {
+	for _, fn := range expandFuncs(p, c, d.Funcs, d.Props...) {
 		sf := newSymFn(p, fn, 0)
 		seen := map[string]bool{}
 		n := 0
@@ -815,7 +841,7 @@ func isEscaped(t *Sym) bool {
 // de-duplication keys: `if seen[K] { continue }; seen[K] = true; use(V)` — K must determine V
 
 func runDedupe(p *Program, c *Collector, d FuncRuleSpec) {
-	for _, fn := range expandFuncs(p, c, d.Funcs) {
+	for _, fn := range expandFuncs(p, c, d.Funcs, d.Props...) {
 		sf := newSymFn(p, fn, 0)
 		for _, b := range fn.Blocks {
 			for _, in := range b.Instrs {
@@ -908,7 +934,7 @@ func symAtoms(t *Sym) map[string]bool {
 // deletion while iterating by index: x = append(x[:i], x[i+1:]...) inside `for i := 0; i < len(x); i++` must step i back
 
 func runDeleteIter(p *Program, c *Collector, d FuncRuleSpec) {
-	for _, fn := range expandFuncs(p, c, d.Funcs) {
+	for _, fn := range expandFuncs(p, c, d.Funcs, d.Props...) {
 		for _, b := range fn.Blocks {
 			for _, in := range b.Instrs {
 				call, ok := isBuiltinCall(in, "append")
@@ -984,7 +1010,7 @@ func runJSONClosure(p *Program, c *Collector, j JSONSpec) {
 		pr, tn := splitTypeKey(tk)
 		pk := p.ByPath[joinMod(pr)]
 		if pk == nil || pk.Types.Scope().Lookup(tn) == nil {
-			c.Fatal("E7: json closure: %s does not resolve", tk)
+			c.Anchor(j.Props, "E7: json closure: %s does not resolve", tk)
 			continue
 		}
 		t := pk.Types.Scope().Lookup(tn).Type()
@@ -1115,7 +1141,7 @@ func runNoExit(p *Program, sp *Spec, c *Collector, n NoExitSpec) {
 	}
 	key := "noexit:" + n.Scope
 	if len(roots) == 0 {
-		c.Fatal("E7: no-exit: scope %s has no roots", n.Scope)
+		c.Anchor(n.Props, "E7: no-exit: scope %s has no roots", n.Scope)
 		return
 	}
 	var bad []string
@@ -1143,5 +1169,89 @@ func runNoExit(p *Program, sp *Spec, c *Collector, n NoExitSpec) {
 		c.Ob(n.Props, "E7.no-exit", key, Violated, n.What+": "+strings.Join(dedupStrings(bad), "; "), "", false)
 	} else {
 		c.Ob(n.Props, "E7.no-exit", key, Discharged, fmt.Sprintf("%s: no recover / os.Exit / log.Fatal among the functions reachable from %d roots", n.What, len(roots)), "", true)
+	}
+}
+
+// ---------------------------------------------------------------------------------------------
+// loop-carried record: an object allocated before a loop, whose fields are assigned only on some paths of an iteration
+// and whose value is emitted (copied) in every iteration, carries the fields of the previous element.
+
+func runLoopCarried(p *Program, c *Collector, d FuncRuleSpec) {
+	for _, fn := range expandFuncs(p, c, d.Funcs, d.Props...) {
+		for _, b := range fn.Blocks {
+			for _, in := range b.Instrs {
+				al, ok := in.(*ssa.Alloc)
+				if !ok {
+					continue
+				}
+				st, isStruct := al.Type().Underlying().(*types.Pointer).Elem().Underlying().(*types.Struct)
+				if !isStruct {
+					// pointer returned by a constructor call stored in a local: handled through the value below
+					continue
+				}
+				checkCarried(p, c, d, fn, al, st, cellName(al))
+			}
+			// p := NewX() before the loop (pointer from a call)
+			for _, in := range b.Instrs {
+				call, ok := in.(*ssa.Call)
+				if !ok {
+					continue
+				}
+				pt, ok := call.Type().Underlying().(*types.Pointer)
+				if !ok {
+					continue
+				}
+				st, ok := pt.Elem().Underlying().(*types.Struct)
+				if !ok {
+					continue
+				}
+				checkCarried(p, c, d, fn, call, st, call.Name())
+			}
+		}
+	}
+}
+
+func checkCarried(p *Program, c *Collector, d FuncRuleSpec, fn *ssa.Function, obj ssa.Value, st *types.Struct, name string) {
+	refs := obj.Referrers()
+	if refs == nil {
+		return
+	}
+	// loops in which the object is read as a whole (*obj) — its value is emitted per iteration
+	for _, r := range *refs {
+		ld, ok := r.(*ssa.UnOp)
+		if !ok || ld.Op != token.MUL || ld.X != obj {
+			continue
+		}
+		region := loopRegion(fn, ld.Block())
+		if region == nil {
+			continue
+		}
+		if oi, ok := obj.(ssa.Instruction); ok && region[oi.Block()] {
+			continue // created inside the same loop: fresh per iteration
+		}
+		// fields stored inside that loop
+		var partial []string
+		for _, r2 := range *refs {
+			fa, ok := r2.(*ssa.FieldAddr)
+			if !ok {
+				continue
+			}
+			for _, r3 := range *fa.Referrers() {
+				s2, ok := r3.(*ssa.Store)
+				if !ok || s2.Addr != ssa.Value(fa) || !region[s2.Block()] {
+					continue
+				}
+				// assigned on every iteration before the read?
+				if !s2.Block().Dominates(ld.Block()) {
+					partial = append(partial, st.Field(fa.Field).Name())
+				}
+			}
+		}
+		if len(partial) == 0 {
+			continue
+		}
+		key := "carried:" + p.FuncKey(fn) + " " + name
+		c.Ob(d.Props, "E7.loop-carried-record", key, Violated, d.What+": the record is created once before the loop, its field(s) "+strings.Join(dedupStrings(partial), ", ")+" are assigned only on some paths of an iteration, and its value is emitted in every iteration: an element that does not set them inherits the previous element's value", p.InstrPos(ld), false)
+		return
 	}
 }
